@@ -9,6 +9,7 @@ import QiVerif.Driver.C07
 import QiVerif.Driver.C17
 import QiVerif.Driver.C10
 import QiVerif.Driver.C11
+import QiVerif.Driver.C06
 open QiVerif.Driver
 
 /-- parameters handed over by ./check from the regenerated constants -/
@@ -20,6 +21,7 @@ structure DState where
   svc : QiVerif.Service.Svc := {}
   ep : C17.St := {}
   cl : QiVerif.Client.W := {}
+  au : C06.St := {}
 
 def dispatch (p : Params) (st : DState) (line : String) : DState × String :=
   let ws := words line
@@ -40,6 +42,9 @@ def dispatch (p : Params) (st : DState) (line : String) : DState × String :=
     else if op.startsWith "rd." || op.startsWith "val." || op.startsWith "enc." || op.startsWith "dec." then
       (st, Codec.run ws)
     else if op.startsWith "c10." then (st, C10.run ws)
+    else if op.startsWith "au." then
+      let (s', out) := C06.run st.au ws
+      ({ st with au := s' }, out)
     else if op.startsWith "cl." then
       let (s', out) := C11.run st.cl ws
       ({ st with cl := s' }, out)
